@@ -53,6 +53,14 @@ def run(prop, tier):
                 continue
             if hasattr(mod, "extra"):
                 mod.extra(res, tier)
+    if prop in ("C03", "C07"):
+        # wp2_bfull2: whole-rule (B-full) correspondence of the indent / vertical-spacing families
+        try:
+            import props_bfull2
+
+            props_bfull2.extra(res, tier, prop)
+        except ImportError:
+            pass
     for he in agg.get("harness_errors", [])[:3]:
         res.notes.append("harness error: %r" % (he,))
     nontrivial = sum(1 for _ in agg["fired"]) if False else None
